@@ -88,6 +88,8 @@ def events(sa, config):
     auto, single = config.get("automatic", False), config.get("single_dim", False)
     if single:
         dimsets = [list(c) for k in range(1, d + 1) for c in itertools.combinations(range(d), k)]
+        if config.get("single_dimsets"):       # restricted menu of split-dimension sets (keeps two-area rounds enumerable)
+            dimsets = [list(x) for x in config["single_dimsets"]]
     out = []
     for k in range(1, s + 1):
         for ch in itertools.combinations(range(len(objs)), k):
